@@ -44,7 +44,7 @@ def required_classes(tier):
         out += ["%s.eq:both-inf" % mk, "%s.eq:one-inf" % mk, "%s.eq:finite" % mk, "%s.double:identity" % mk]
     for p in PATHS:
         out.append("secp.jacobian_add:%s" % p)
-    out += ["secp.jacobian_double:identity", "secp.jacobian_double:finite"]
+    out += ["secp.jacobian_double:identity", "secp.jacobian_double:finite", "secp:identity-result-fed-back"]
     return out
 
 
@@ -185,8 +185,17 @@ def secp_part(rec, quick, do_exh):
             rec.check("B-rep-independence", smon.jac_aff(r1[1]) == smon.jac_aff(r2[1]), "secp", "jacobian_add: result depends on the representative",
                       case={"fn": "jacobian_add"}, facts={"module": "secp256k1", "fn": "jacobian_add", "kind": "rep-independence"})
         rec.case("secp.jacobian_double:" + ("identity" if A is None else "finite"), None, nontrivial=False)
-        call(s.jacobian_double, jac(A))
+        rd = call(s.jacobian_double, jac(A))
         call(s.from_jacobian, jac(A))
+        # closure: whatever the functions return for the identity must itself act as the identity when fed back
+        for r in (r1, rd):
+            if r[0] == "ok" and smon.jac_aff(r[1]) is None:
+                Qf = (F.rand(rng), F.rand(rng))
+                if Qf[1] != (0,):
+                    rec.case("secp:identity-result-fed-back", None, nontrivial=False)
+                    call(s.jacobian_add, r[1], jac(Qf))
+                    call(s.jacobian_add, jac(Qf), r[1])
+                    call(s.jacobian_double, r[1])
     # W4: A != 0 and exhaustive small fields (module constants rebound)
     saved = {k: getattr(s, k) for k in ("P", "N", "A", "B", "Gx", "Gy", "G")}
     try:
@@ -205,8 +214,13 @@ def secp_part(rec, quick, do_exh):
             trip = [(x, y, z) for x in range(p) for y in range(p) for z in range(p) if not (z == 0 and y != 0)]
             if p <= (11 if quick else 23):
                 cnt = 0
+                fin = [t for t in trip if t[1] and t[2]]
                 for t1 in trip:
-                    call(s.jacobian_double, t1)
+                    rd = call(s.jacobian_double, t1)
+                    if rd[0] == "ok" and smon.jac_aff(rd[1]) is None:
+                        tq = fin[cnt % len(fin)]
+                        call(s.jacobian_add, rd[1], tq)
+                        call(s.jacobian_add, tq, rd[1])
                     for t2 in trip:
                         call(s.jacobian_add, t1, t2)
                         cnt += 1
